@@ -378,11 +378,11 @@ def _mk(vk, w, group=None):
   if kind == 'typed_list':
     if w < 0:
       raise Assume()
-    return kind, pg.List([w], value_spec=pgt.List(pgt.Int(min_value=0)))
+    return kind, pg.List([w], value_spec=pgt.List(pgt.Int(min_value=0), min_size=1, max_size=3))   # only the element range is looser
   if kind == 'typed_list_empty':
     return kind, pg.List([], value_spec=pgt.List(pgt.Int(min_value=0, max_value=5), max_size=3))
   if kind == 'typed_dict':
-    return kind, pg.Dict(k=w, value_spec=pgt.Dict([('k', pgt.Int())]))
+    return kind, pg.Dict(k=w, value_spec=pgt.Dict([('k', pgt.Int()), (pgt.StrKey('y.*'), pgt.Int())]))   # k is looser
   if kind == 'partial_d':
     return kind, Rec3.partial(d={'y1': w}).d          # typed by the very same field spec, but partial
   if kind == 'partial_rec':
